@@ -660,6 +660,16 @@ def check(inp):
         ell = length_of(model, params, m)
         if not abs(inv.frac_volume - (1 - f)) <= 1e-15:
             return (CLASSES[model][0] + ":inversion", "inverted_medium does not map f to 1-f", inv.frac_volume, 1 - f)
+        # phase inversion maps f to 1 - f: the inverted object is the model of the twin medium, i.e. it gives what a model built afresh with
+        # 1 - f (and the same other parameters) gives - nothing computed for the old f survives in it
+        if model in ("exp", "sph", "shs", "ts", "grf") and 0.0 < f < 1.0:
+            fresh = mk(model, [1 - f] + list(params[1:]))
+            kk = inp["k_len"] / ell
+            a, b = ft1(inv, kk), ft1(fresh, kk)
+            tol = 1e-9 if model != "grf" else 1e-6
+            if not abs(a - b) <= tol * max(abs(a), abs(b)) + 1e-300:
+                return (CLASSES[model][0] + ":inversion-fresh", f"{CLASSES[model][0]}: the spectrum of inverted_medium() differs from that of the model built "
+                        f"with 1 - f = {1 - f:.4g}", [a, b], "equal")
         if model in ("shs", "ushs", "samp", "hom"):
             return None                          # the normalised function contains f (or is data): no further claim
         k, r = inp["k_len"] / ell, inp["r_len"] * ell
@@ -727,6 +737,8 @@ def oracle(ctx, hints, effort):
     for fv in (0.02, 0.95, 0.98):
         for kl in (0.0, 1.0):
             cases.append({"check": "pair-numeric-ft", "model": "grf", "params": [fv, 1e-4, 1e-3], "k_len": kl})
+    for fv, tau in ((0.15, 0.3), (0.3, 0.15), (0.42, 1.0)):      # strongly sticky spheres: the quantities derived from f matter
+        cases.append({"check": "inversion", "model": "shs", "params": [fv, 2e-4, tau], "k_len": 0.0, "r_len": 1.0})
     for K in (0.5, 0.8, 1.5, 2.0):
         for fv in (0.1, 0.3):
             cases.append({"check": "mapping", "model": "ushs", "params": [fv, 1e-4, K], "k_len": 0.0, "r_len": 1.0})
